@@ -740,6 +740,8 @@ impl P {
                 if let Some(f) = p.funcs.iter_mut().find(|f| f.name == name && f.proto_first && f.body.is_empty()) {
                     f.body = body;
                     f.params = params;
+                    // an attribute given on either declaration holds
+                    f.interrupt = f.interrupt || interrupt;
                 } else {
                     p.funcs.push(Func { name, ret: ty, params, body, inline, interrupt, proto_first: false, qual: qual.clone() });
                 }
